@@ -279,6 +279,9 @@ def rules(ctx):
     r13_fresh_samplers_every_run(ctx)
     # "position-indexed random draws": the per-subject working states (whose preparation draws the subject's starting point) are created in the
     # order of the cohort, not in an order computed from the subjects' data (same rule as C17.R1)
+    # ... and the best draw of an individual is picked along that individual's own chain, component by component (same rule as C17.R3)
+    from .c17 import r3_axes
+    r3_axes(ctx, rid="C07.R15")
     from .c17 import r1_order
     r1_order(ctx, rid="C07.R14", title="per-subject states are prepared, and results collected, in the order of the cohort (a subject's random start does not depend on the others' data)")
     r3b_after_cleaning(ctx, state_writes(ctx), rid="C07.R12", why="the model keeps that cohort's data and estimates: the next personalisation on the same model starts every subject from "
